@@ -286,12 +286,20 @@ func treeCase(d *lib.Driver, n *node) error {
 	txt := n.text()
 	isShared := n.shared()
 	big := n.hasBig()
+	mixS, mixC := n.mixed()
+	mix := mixS || mixC // generic nodes inside simple data: outside the property, correspondence only
 	var reqs []string
 	var pend []*pending
 	for pi := range pipes {
 		p := &pipes[pi]
 		if p.inPlace && isShared {
 			continue // the casts reinterpret cells that were already rewritten: undefined in Go
+		}
+		if mix && p.generic {
+			continue // built all-generic it is the same case as the unmixed description
+		}
+		if mixC && (p.steps[0] == "decompose" || p.steps[0] == "dup" || p.steps[0] == "altAlter") {
+			continue // a generic container takes the Simplifier route of decompose/alter: not modelled
 		}
 		variants := optVariants
 		if !p.opts {
@@ -327,7 +335,7 @@ func treeCase(d *lib.Driver, n *node) error {
 				}
 			}
 			// value oracle: null-keeping options, JSON-like data
-			if p.expect != 0 && oc == "00" && !big {
+			if p.expect != 0 && oc == "00" && !big && !mix {
 				want := n.expected(p.expect == 'g')
 				if pe.resTxt != want {
 					rp2 := cloneMap(rp)
@@ -344,13 +352,13 @@ func treeCase(d *lib.Driver, n *node) error {
 				}
 			}
 			// mutate-after-copy experiments
-			if p.copying {
+			if p.copying && !mix {
 				mutationExperiments(p, n, oc, rp)
 			}
 		}
 	}
 	// writers clause
-	if !big {
+	if !big && !mix {
 		writersClause(n, txt)
 	}
 	ans, err := d.Ask(reqs)
@@ -583,6 +591,27 @@ type job struct {
 	json bool
 }
 
+// safeCase runs one case; a panic outside the guarded conversions (say while reading a value that a
+// wrong cast has corrupted) is a finding of that case.
+func safeCase(d *lib.Driver, j job) (err error) {
+	defer func() {
+		if r := recover(); r != nil {
+			rp := map[string]any{}
+			if j.json {
+				rp["json_hex"] = lib.HexF([]byte(j.text))
+			} else {
+				rp["tree"] = j.n.text()
+			}
+			add("violation", "panic:case", "reading the values of this case panicked: "+fmt.Sprint(r), rp, "")
+		}
+	}()
+	if j.json {
+		parserClause(j.text)
+		return nil
+	}
+	return treeCase(d, j.n)
+}
+
 func main() {
 	flag.Parse()
 	rep = lib.NewReport(*prop, *tier, *seed)
@@ -610,9 +639,7 @@ func main() {
 			defer d.Close()
 			for batch := range jobs {
 				for _, j := range batch {
-					if j.json {
-						parserClause(j.text)
-					} else if err := treeCase(d, j.n); err != nil {
+					if err := safeCase(d, j); err != nil {
 						fatal.Store(err.Error())
 					}
 				}
@@ -685,8 +712,14 @@ func main() {
 	base := lib.NewRng(*seed)
 	for i := 0; i < nTrees; i++ {
 		g := &treeGen{r: base.Fork(i), storage: i%3 == 1, share: i%4 == 2, big: i%10 == 9}
+		if i%7 == 6 {
+			g.mixed = 1 + (i/7)%2
+			g.share = false
+		}
 		stream := "random_plain"
 		switch {
+		case g.mixed > 0:
+			stream = "random_generic_nodes_inside_simple"
 		case g.big:
 			stream = "random_with_big_numbers"
 		case g.share:
